@@ -465,7 +465,7 @@ theorem rebalance_closes_untargeted (pw : K → K → K) (w : World K) (D : K) (
 
 /-! ### the premises are satisfiable: a concrete rebalance at `ℚ` -/
 section NonVacuity
-local instance : HasTrunc ℚ := ⟨fun q => ((q.num.tdiv q.den : Int) : ℚ)⟩
+local instance instTruncQC03 : HasTrunc ℚ := ⟨fun q => ((q.num.tdiv q.den : Int) : ℚ)⟩
 private def wEx : World ℚ :=
   { spec := fun _ => { mult := 1, cashReq := 1, mr := 0 }, fixed := 0, prop := 0, markup := 0, rateKey := "R", eps := 0 }
 private def bEx : Broker ℚ :=
